@@ -241,16 +241,33 @@ def write_ods(path, xml_bytes, with_content=True):
         z.writestr("META-INF/manifest.xml", "<manifest/>")
 
 
-def observe(path, sheet):
+def observe_source(source, sheet):
     rows = []
     try:
-        for r in rowio.ods_rows(path, sheet):
+        for r in rowio.ods_rows(source, sheet):
             rows.append(list(r))
         return {"rows": rows, "failed": False}
     except errors.DataFormatError as e:
         return {"rows": rows, "failed": True, "msg": str(e)[:100]}
     except Exception as e:  # noqa
         return {"rows": rows, "leak": type(e).__name__, "msg": str(e)[:100]}
+
+
+_N_OBSERVED = [0]
+
+
+def observe(path, sheet):
+    res = observe_source(path, sheet)
+    _N_OBSERVED[0] += 1
+    if _N_OBSERVED[0] % 3 == 0:
+        # the same document handed over as an open binary stream, from which another sheet has been read before
+        with open(path, "rb") as fh:
+            observe_source(fh, 1)
+            again = observe_source(fh, sheet)
+        if (again.get("rows"), again.get("failed"), again.get("leak")) != (res.get("rows"), res.get("failed"), res.get("leak")):
+            res["stream_mismatch"] = "read from an open stream (second read of that stream) gives %r but by path %r" % (
+                (again.get("rows"), again.get("failed"), again.get("leak"), again.get("msg")), (res.get("rows"), res.get("failed")))
+    return res
 
 
 def file_bytes(inp):
@@ -298,6 +315,8 @@ def make_case(inp):
 
 
 def direct_oracle(inp, obs):
+    if obs.get("stream_mismatch"):
+        return obs["stream_mismatch"]
     if "leak" in obs:
         return "ods_rows raised %s (%s) instead of a DataFormatError" % (obs["leak"], obs["msg"])
     kind = inp["kind"]
